@@ -18,6 +18,7 @@ INVARIANT M_SidecarExact
 INVARIANT M_LastBlankLineLost
 INVARIANT M_Cap20K
 INVARIANT M_BigShape
+INVARIANT M_LinkKeepsSidecars
 INVARIANT M_ViewsTruthful
 INVARIANT M_NoSizeNoClaim
 INVARIANT M_LenOrMarker
